@@ -129,3 +129,189 @@ pub fn derive(k: HKind, from: Slot, to: Slot) -> Op {
         HKind::Owning => Op::Clone { h: from, to },
     }
 }
+
+// ------------------------------------------------------------------------------------------
+// one-actor family: an actor, 1-4 clients holding derived handles, the primary handle with client 0
+
+pub const PRIMARY: Slot = 8;
+pub const TMP: Slot = 9;
+
+pub struct Fam {
+    pub sc: Scenario,
+    pub slots: Vec<Slots>,
+    pub owning: bool,
+    /// number of leading `Take` ops per client (programs are inserted after them)
+    pub takes: Vec<usize>,
+}
+
+pub fn one_actor(g: &mut G, spec: ActorSpec, nclients: usize, kinds: &[HKind], per_client: (u64, u64)) -> Fam {
+    let mut sc = Scenario::empty(0);
+    let owning = spec.entry.owning();
+    sc.actors.push(spec);
+    sc.setup.push(Op::Spawn { spec: 0, slot: 0 });
+    let mut slots: Vec<Slots> = vec![Slots::default(); nclients];
+    for (c, sl) in slots.iter_mut().enumerate() {
+        let n = g.range(per_client.0, per_client.1) as usize;
+        for k in 0..n {
+            let kind = g.pick(kinds);
+            sc.setup.push(derive(kind, 0, 1));
+            sc.setup.push(Op::Give { h: 1, client: c as u32, to: k });
+            sl.set(k, Some(kind));
+        }
+    }
+    sc.setup.push(Op::Give { h: 0, client: 0, to: PRIMARY });
+    slots[0].set(PRIMARY, Some(if owning { HKind::Owning } else { HKind::Addr }));
+    let mut takes = vec![];
+    for sl in &slots {
+        let mut ops = vec![];
+        for s in sl.any() {
+            ops.push(Op::Take { to: s });
+        }
+        takes.push(ops.len());
+        sc.clients.push(ClientSpec { ops });
+    }
+    Fam { sc, slots, owning, takes }
+}
+
+impl Fam {
+    /// a random position in client c's program (after its Takes)
+    pub fn pos(&self, g: &mut G, c: usize) -> usize {
+        let lo = self.takes[c];
+        let hi = self.sc.clients[c].ops.len();
+        g.range(lo as u64, hi as u64) as usize
+    }
+    pub fn insert(&mut self, c: usize, at: usize, ops: Vec<Op>) {
+        let tail = self.sc.clients[c].ops.split_off(at);
+        self.sc.clients[c].ops.extend(ops);
+        self.sc.clients[c].ops.extend(tail);
+    }
+    pub fn nclients(&self) -> usize {
+        self.slots.len()
+    }
+    /// a (client, slot) that holds a handle of one of the kinds
+    pub fn holder(&self, g: &mut G, ks: &[HKind]) -> Option<(usize, Slot)> {
+        let mut all = vec![];
+        for (c, sl) in self.slots.iter().enumerate() {
+            for s in sl.of_kind(ks) {
+                all.push((c, s));
+            }
+        }
+        if all.is_empty() { None } else { Some(g.pick(&all)) }
+    }
+}
+
+#[derive(Clone, Copy, Debug, PartialEq, Eq)]
+pub enum Cause {
+    None,
+    Stop,
+    Halt,
+    TryStop,
+    TryHalt,
+    CtxStop,
+    Consume,
+    LastDrop,
+    StartErr,
+    HandlerPanic,
+    TimeoutFail,
+    CancelPoll,
+    CancelStep,
+}
+impl Cause {
+    pub fn failure(self) -> bool {
+        matches!(self, Cause::StartErr | Cause::HandlerPanic | Cause::TimeoutFail | Cause::CancelPoll | Cause::CancelStep)
+    }
+}
+
+/// Plant one termination cause at a random position of the family's programs.
+pub fn apply_cause(g: &mut G, fam: &mut Fam, cause: Cause) {
+    match cause {
+        Cause::None | Cause::LastDrop => {
+            if cause == Cause::LastDrop {
+                let at = fam.pos(g, 0);
+                fam.insert(0, at, vec![Op::Drop { h: PRIMARY }]);
+            }
+        }
+        Cause::Stop => {
+            let at = fam.pos(g, 0);
+            fam.insert(0, at, vec![Op::Stop { h: PRIMARY }]);
+        }
+        Cause::Halt => {
+            let at = fam.pos(g, 0);
+            fam.insert(0, at, vec![Op::Clone { h: PRIMARY, to: TMP }, Op::Halt { h: TMP }]);
+        }
+        Cause::TryStop => {
+            let at = fam.pos(g, 0);
+            fam.insert(0, at, vec![Op::Downgrade { h: PRIMARY, to: TMP }, Op::TryStop { h: TMP }]);
+        }
+        Cause::TryHalt => {
+            let at = fam.pos(g, 0);
+            fam.insert(0, at, vec![Op::Downgrade { h: PRIMARY, to: TMP }, Op::TryHalt { h: TMP }]);
+        }
+        Cause::CtxStop => {
+            let at = fam.pos(g, 0);
+            let id = g.id();
+            let op = if g.chance(1, 2) {
+                Op::Send { h: PRIMARY, id, work: vec![Work::CtxStop] }
+            } else {
+                Op::Call { h: PRIMARY, id, work: vec![Work::CtxStop] }
+            };
+            fam.insert(0, at, vec![op]);
+        }
+        Cause::Consume => {
+            let at = fam.pos(g, 0);
+            let op = if fam.owning {
+                if g.chance(1, 2) { Op::Consume { h: PRIMARY } } else { Op::ConsumeSync { h: PRIMARY } }
+            } else {
+                Op::Stop { h: PRIMARY }
+            };
+            fam.insert(0, at, vec![op]);
+        }
+        Cause::StartErr => fam.sc.faults.push(Fault { actor: 0, kind: FaultKind::StartErr { nth: 0 } }),
+        Cause::HandlerPanic => {
+            let k = g.range(0, 6) as u32;
+            fam.sc.faults.push(Fault { actor: 0, kind: FaultKind::PanicAtCb { k } })
+        }
+        Cause::TimeoutFail => {
+            let t = g.range(10, 30);
+            fam.sc.actors[0].timeout = Some(t);
+            fam.sc.actors[0].fail_on_timeout = true;
+            let at = fam.pos(g, 0);
+            let id = g.id();
+            let op = if g.chance(1, 2) {
+                Op::Send { h: PRIMARY, id, work: vec![Work::Sleep(3 * t)] }
+            } else {
+                Op::Call { h: PRIMARY, id, work: vec![Work::Sleep(3 * t)] }
+            };
+            fam.insert(0, at, vec![op]);
+        }
+        Cause::CancelPoll => {
+            let j = g.range(1, 8) as u32;
+            fam.sc.faults.push(Fault { actor: 0, kind: FaultKind::CancelBeforePoll { j } })
+        }
+        Cause::CancelStep => {
+            let s = g.range(4, 90);
+            fam.sc.faults.push(Fault { actor: 0, kind: FaultKind::CancelAtStep { s } })
+        }
+    }
+}
+
+/// fill the clients' programs with random submissions through the handles they hold
+pub fn fill_submissions(g: &mut G, fam: &mut Fam, max_ops: u64, cancel_one_in: u64) {
+    for c in 0..fam.nclients() {
+        let n = g.range(1, max_ops);
+        let mut ops = vec![];
+        for _ in 0..n {
+            let avail = fam.slots[c].any();
+            let s = g.pick(&avail);
+            let k = fam.slots[c].get(s).unwrap();
+            let op = crate::props::c01::submission(g, k, s);
+            if cancel_one_in > 0 && g.chance(1, cancel_one_in) {
+                ops.push(Op::CancelAfter { polls: g.range(1, 3) as u32, op: Box::new(op) });
+            } else {
+                ops.push(op);
+            }
+            g.maybe_yield(&mut ops);
+        }
+        fam.sc.clients[c].ops.extend(ops);
+    }
+}
